@@ -1,0 +1,37 @@
+//go:build verif
+
+package resolve
+
+import "sync/atomic"
+
+// Verification hooks (build tag "verif"): cooperative yield points for schedule
+// exploration and read-only accessors for quiescence checks. Never compiled into
+// normal builds; see verif_hooks_off.go for the no-op counterpart.
+
+type verifYieldFn func(point string)
+
+var verifYieldHook atomic.Pointer[verifYieldFn]
+
+// SetVerifYield installs (or, with nil, removes) the function called at every yield point.
+func SetVerifYield(f func(point string)) {
+	if f == nil {
+		verifYieldHook.Store(nil)
+		return
+	}
+	fn := verifYieldFn(f)
+	verifYieldHook.Store(&fn)
+}
+
+func verifYield(point string) {
+	if f := verifYieldHook.Load(); f != nil {
+		(*f)(point)
+	}
+}
+
+// VerifRegistrySizes returns the number of live triggers, subscriptions by id and
+// connections with subscriptions, read under the resolver mutex.
+func (r *Resolver) VerifRegistrySizes() (triggers, subscriptions, connections int) {
+	r.mu.Lock()
+	defer r.mu.Unlock()
+	return len(r.triggers), len(r.subscriptionsByID), len(r.subscriptionsByConnection)
+}
